@@ -167,6 +167,9 @@ func (s *sqSubj[T]) Step(op Op, o *Oracle) {
 }
 
 func (s *sqSubj[T]) check(o *Oracle) {
+	if o.Sparse {
+		return
+	}
 	if len(o.Active) == 0 {
 		return // C18 write phases: no observer may run on the container (it would warm lazily built state)
 	}
@@ -374,3 +377,11 @@ func (s *sqSubj[T]) EncodeModel() []byte {
 	return mustJSON(m)
 }
 func (s *sqSubj[T]) AdoptModel(from Subject) { s.m = slices.Clone(from.(*sqSubj[T]).m) }
+
+// CheckNow runs the state comparison regardless of the sparse setting.
+func (s *sqSubj[T]) CheckNow(o *Oracle) {
+	sp := o.Sparse
+	o.Sparse = false
+	s.check(o)
+	o.Sparse = sp
+}
